@@ -9,7 +9,7 @@ for d in sorted(glob.glob('/verif/seeded/C*-*')):
     needs = re.sub(r'\s+', ' ', str(m.get('needs_to_manifest', '')))[:200]
     c = m.get('check', {})
     rows.append('| %s | %s | %s | **%s** — %s |' % (name, what.replace('|', '/'), needs.replace('|', '/'), c.get('detected', '?'), re.sub(r'\s+', ' ', c.get('how', '')).replace('|', '/')))
-tbl = '| seeded | what it breaks | needs to manifest | caught by `./check` (quick) |\n|---|---|---|---|\n' + '\n'.join(rows) + '\n'
+tbl = '| seeded | what it breaks | needs to manifest | caught by `./check` (quick) |\n|---|---|---|---|\n' + '\n'.join(rows)
 p = '/verif/DESIGN.md'
 s = open(p).read()
 a = s.index('| seeded | what it breaks')
